@@ -21,6 +21,10 @@
 
 static mpq_QSdata *P = NULL;
 static QSbasis *KEPT = NULL;	/* basis remembered by KEEPBASIS */
+/* basis + row norms remembered by GETBN */
+static char *BN_cs = NULL, *BN_rs = NULL;
+static mpq_t *BN_norms = NULL;
+static int BN_n = 0, BN_m = 0, BN_ok = 0;
 
 static void trace_cb (int event, int level, int value)
 {
@@ -224,6 +228,79 @@ int main (int argc, char **argv)
 			int rv = mpq_QSwrite_prob (P, qsx_tok[1], qsx_tok[2]);
 			printf ("WRITEPROB %d\n", rv);
 		}
+		else if (!strcmp (op, "NEWCOL"))
+		{
+			/* NEWCOL <obj> <lo> <up> [count] : mpq_QSnew_col (empty columns) */
+			int k = qsx_ntok > 4 ? atoi (qsx_tok[4]) : 1, rv = 0;
+			mpq_t a, b, c;
+			mpq_init (a); mpq_init (b); mpq_init (c);
+			qsx_parse_q (qsx_tok[1], a); qsx_parse_q (qsx_tok[2], b); qsx_parse_q (qsx_tok[3], c);
+			while (k-- > 0 && !rv) rv = mpq_QSnew_col (P, a, b, c, NULL);
+			printf ("NEWCOL %d\n", rv);
+			mpq_clear (a); mpq_clear (b); mpq_clear (c);
+		}
+		else if (!strcmp (op, "NEWROW"))
+		{
+			/* NEWROW <rhs> <sense> [count] */
+			int k = qsx_ntok > 3 ? atoi (qsx_tok[3]) : 1, rv = 0;
+			mpq_t a;
+			mpq_init (a);
+			qsx_parse_q (qsx_tok[1], a);
+			while (k-- > 0 && !rv) rv = mpq_QSnew_row (P, a, qsx_tok[2][0], NULL);
+			printf ("NEWROW %d\n", rv);
+			mpq_clear (a);
+		}
+		else if (!strcmp (op, "ADDROW") || !strcmp (op, "ADDCOL"))
+		{
+			/* ADDROW <sense> <rhs> <k> (<col> <coef>)*k      ADDCOL <obj> <lo> <up> <k> (<row> <coef>)*k */
+			int isrow = op[3] == 'R', off = isrow ? 3 : 4, k = atoi (qsx_tok[off]), j, rv;
+			int *ind = (int *) malloc (sizeof (int) * (k + 1));
+			mpq_t *val = mpq_EGlpNumAllocArray (k + 1), a, b, c;
+			mpq_init (a); mpq_init (b); mpq_init (c);
+			for (j = 0; j < k; j++) { ind[j] = atoi (qsx_tok[off + 1 + 2 * j]); qsx_parse_q (qsx_tok[off + 2 + 2 * j], val[j]); }
+			if (isrow)
+			{
+				qsx_parse_q (qsx_tok[2], a);
+				rv = mpq_QSadd_row (P, k, ind, val, &a, qsx_tok[1][0], NULL);
+			}
+			else
+			{
+				qsx_parse_q (qsx_tok[1], a); qsx_parse_q (qsx_tok[2], b); qsx_parse_q (qsx_tok[3], c);
+				rv = mpq_QSadd_col (P, k, ind, val, a, b, c, NULL);
+			}
+			printf ("%s %d\n", op, rv);
+			free (ind); mpq_EGlpNumFreeArray (val);
+			mpq_clear (a); mpq_clear (b); mpq_clear (c);
+		}
+		else if (!strcmp (op, "GETBN"))
+		{
+			/* remember basis and row norms of the current problem */
+			int n = mpq_QSget_colcount (P), m = mpq_QSget_rowcount (P), rv;
+			free (BN_cs); free (BN_rs); if (BN_norms) mpq_EGlpNumFreeArray (BN_norms);
+			BN_cs = (char *) calloc (n + 1, 1); BN_rs = (char *) calloc (m + 1, 1);
+			BN_norms = mpq_EGlpNumAllocArray (m + 1);
+			rv = mpq_QSget_basis_and_row_norms_array (P, BN_cs, BN_rs, BN_norms);
+			BN_n = n; BN_m = m; BN_ok = !rv;
+			printf ("GETBN %d\n", rv);
+		}
+		else if (!strcmp (op, "LOADBN"))
+		{
+			/* load the remembered basis (+ norms) into the possibly grown problem: new columns at
+			 * lower bound, new rows basic, new norms 1 */
+			int n = mpq_QSget_colcount (P), m = mpq_QSget_rowcount (P), i, rv = -1;
+			if (BN_ok && n >= BN_n && m >= BN_m)
+			{
+				char *cs = (char *) calloc (n + 1, 1), *rs = (char *) calloc (m + 1, 1);
+				mpq_t *nr = mpq_EGlpNumAllocArray (m + 1);
+				for (i = 0; i < n; i++) cs[i] = i < BN_n ? BN_cs[i] : QS_COL_BSTAT_LOWER;
+				for (i = 0; i < m; i++) rs[i] = i < BN_m ? BN_rs[i] : QS_ROW_BSTAT_BASIC;
+				for (i = 0; i < m; i++) { if (i < BN_m) mpq_set (nr[i], BN_norms[i]); else mpq_set_ui (nr[i], 1UL, 1UL); }
+				if (qsx_ntok > 1 && !strcmp (qsx_tok[1], "NONORMS")) rv = mpq_QSload_basis_array (P, cs, rs);
+				else rv = mpq_QSload_basis_and_row_norms_array (P, cs, rs, nr);
+				free (cs); free (rs); mpq_EGlpNumFreeArray (nr);
+			}
+			printf ("LOADBN %d\n", rv);
+		}
 		else if (!strcmp (op, "KEEPBASIS"))
 		{
 			QSbasis *B = mpq_QSget_basis (P);
@@ -315,6 +392,7 @@ int main (int argc, char **argv)
 	}
 	if (P) mpq_QSfree_prob (P);
 	if (KEPT) free_basis (KEPT);
+	free (BN_cs); free (BN_rs); if (BN_norms) mpq_EGlpNumFreeArray (BN_norms);
 	QSexactClear ();
 	free (qsx_line); free (qsx_tok);
 	qsx_capture_report ();
